@@ -68,7 +68,7 @@ def t1_analyze(F, res):
             for fd in v["fields"]:
                 if (short, fd["name"]) in grow:
                     rows[(f["path"], v["name"], fd["name"])] = grow[(short, fd["name"])]
-        res.add(e3.check_impl_method(F, f, st, fam, "ref", "T1", rows, path_ok_blocks=lambda fn: _reporting_blocks(fn) | _child_reported_blocks(fn)))
+        res.add(e3.check_impl_method(F, f, st, fam, "ref", "T1", rows, path_ok_blocks=lambda fn: _reporting_blocks(fn, F) | _child_reported_blocks(fn)))
     identifier_invariant(F, res)
     res.count("Analyzable::analyze impls on AST types", n)
     res.floor("Analyzable::analyze impls on AST types", n, 55)
@@ -270,7 +270,18 @@ def facade(F, res):
         res.add([finding("FACADE", key2, w, "the template name passed to lowering::lower is not taken from the program's own transactions")])
 
 
-def _reporting_blocks(fn):
+def _builds_diagnostic(g):
+    for b in g["blocks"]:
+        if b["cleanup"]:
+            continue
+        if any(s["rv"]["k"] == "agg" and s["rv"].get("adt") == "tx3_lang::analyzing::Error" for s in b["s"]):
+            return True
+        if b["t"]["k"] == "call" and (b["t"].get("callee") or "").startswith("tx3_lang::analyzing::Error::"):
+            return True
+    return False
+
+
+def _reporting_blocks(fn, F=None):
     """blocks of an analyze() body after which the returned report is not silent about the node: a diagnostic is constructed,
     or a child's analyze() is called on this very path (its report is what gets returned).  A path that skips a field is
     acceptable for the analyzer only if it passes one of these - a bailing analyzer reports the error instead of descending."""
@@ -285,6 +296,9 @@ def _reporting_blocks(fn):
         if t["k"] == "call":
             c = t.get("callee") or ""
             if c.startswith("tx3_lang::analyzing::Error::"):
+                out.add(bi)
+            # `opt.ok_or_else(|| Error::..)` / `res.map_err(|e| Error::..)`: the diagnostic is built by the closure handed over
+            elif F is not None and any(fr in F.fns and _builds_diagnostic(F.fns[fr]) for fr in t.get("fnrefs") or ()):
                 out.add(bi)
     return out
 
@@ -318,22 +332,38 @@ def _child_reported_blocks(fn):
             if dpl is None or dpl["l"] != s["lhs"]["l"]:
                 continue
             pl = rv["pl"]
-            fields = [q for q in pl["p"] if q[0] == "f"]
-            if not fields:
-                # through `&self.f.symbol`
-                src = [st for _, _, st in mir.stmts(fn) if st["lhs"]["l"] == pl["l"] and not st["lhs"]["p"] and st["rv"]["k"] == "ref"]
-                if len(src) != 1:
+            # the matched place, written from self: field names along the way (through `&self.f.symbol` temporaries and
+            # through the parameter of an inlined helper that was handed `&self.f`)
+            own = [q for q in pl["p"] if q[0] == "f"]
+            if not own or own[-1][1] != "symbol" or own[-1][2] != IDENT:
+                if own:
                     continue
-                pl = src[0]["rv"]["pl"]
-                fields = [q for q in pl["p"] if q[0] == "f"]
-            if len(fields) < 2 or fields[-1][1] != "symbol" or fields[-1][2] != IDENT or pl["l"] != 1:
+            chains = []
+            for o in mir.provenance(fn, du, {"cp": {"l": pl["l"], "p": []}}):
+                if o.kind == "arg" and o.local == 1:
+                    chains.append([x.lstrip(".") for x in o.proj if x.startswith(".")] + [q[1] for q in own])
+                else:
+                    chains.append(None)
+            if pl["l"] == 1:
+                chains = [[q[1] for q in own]]
+            if not chains or any(c is None or len(c) < 2 or c[-1] != "symbol" for c in chains):
                 continue
-            owner = fields[-2][1]
+            if not own:
+                # `match *r` with r = &self.f.symbol: the Identifier ADT is named on the ref's own projection
+                src = [st for _, _, st in mir.stmts(fn) if st["lhs"]["l"] == pl["l"] and not st["lhs"]["p"] and st["rv"]["k"] == "ref"]
+                if len(src) != 1 or not [q for q in src[0]["rv"]["pl"]["p"] if q[0] == "f" and q[1] == "symbol" and q[2] == IDENT]:
+                    continue
+            fields = [None, None]
+            owners = {c[-2] for c in chains}
+            if len(owners) != 1:
+                continue
+            owner = owners.pop()
             if not any(cfg.dominates(ab, bi) for ab in analysed.get(owner, [])):
                 continue
-            for v, tb in b["t"]["targets"]:
-                if v == 0:
-                    out.add(tb)
+            tg = dict((v, tb) for v, tb in b["t"]["targets"])
+            none_t = tg.get(0, b["t"]["otherwise"] if 1 in tg else None)
+            if none_t is not None:
+                out.add(none_t)
     return out
 
 
